@@ -2380,6 +2380,10 @@ impl IdmServerProxyWriteTransaction<'_> {
             self.reload_oauth2_client_providers()?;
         }
 
+        // Commit the query server (and with it the database) first. If that fails nothing
+        // of this transaction may be published.
+        self.qs_write.commit()?;
+
         // Commit everything.
         self.applications.commit();
         self.oauth2rs.commit();
@@ -2387,7 +2391,7 @@ impl IdmServerProxyWriteTransaction<'_> {
         self.oauth2_client_providers.commit();
 
         trace!("cred_update_session.commit");
-        self.qs_write.commit()
+        Ok(())
     }
 }
 
